@@ -104,6 +104,21 @@ func check(c tcase) *mc.Failure {
 					return mc.Failf(0, "Intersect result aliases operand %d", i)
 				}
 			}
+		case "intersect-masks":
+			// operands given as bit masks over {0,1,2,3}: sets of every size 0..4
+			var ss []mapset.Set[int]
+			want := uint64(15)
+			for _, m := range c.Ops {
+				ss = append(ss, bigSet(uint64(m), false))
+				want &= uint64(m)
+			}
+			got := mapset.Intersect(ss...)
+			if got == nil {
+				return mc.Failf(0, "Intersect(masks %v) returned nil", c.Ops)
+			}
+			if m, ok := bigMask(got); !ok || m != want {
+				return mc.Failf(0, "Intersect of the sets with masks %v over {0,1,2,3} = %v, want mask %b", c.Ops, got, want)
+			}
 		case "hasall":
 			s, sm := operand(c.Ops[0])
 			am := listMask(c.Args)
@@ -162,6 +177,25 @@ func check(c tcase) *mc.Failure {
 			if mapset.Keys(nilmap) == nil || mapset.Values(nilmap) == nil {
 				return mc.Failf(0, "Keys/Values of a nil map is nil")
 			}
+			// Keys for other value types - in particular a Set itself and a
+			// map[T]struct{}, which have the representation of the result - must
+			// also be fresh, non-nil sets.
+			if f := keysFresh(o.Clone(), struct{}{}, "a Set"); f != nil {
+				return f
+			}
+			if f := keysFresh(map[int]struct{}(o.Clone()), struct{}{}, "a map[int]struct{}"); f != nil {
+				return f
+			}
+			strs := map[int]string{}
+			for i, v := range c.Args {
+				strs[v] = fmt.Sprint(i)
+			}
+			if f := keysFresh(strs, "x", "a map[int]string"); f != nil {
+				return f
+			}
+			if mapset.Keys(mapset.Set[int](nil)) == nil || mapset.Keys(map[int]struct{}(nil)) == nil || mapset.Keys(map[int]bool(nil)) == nil {
+				return mc.Failf(0, "Keys of a nil Set / map[int]struct{} / map[int]bool is nil")
+			}
 			rg := mapset.Range(func(yield func(int) bool) {
 				for _, v := range c.Args {
 					if !yield(v) {
@@ -202,6 +236,35 @@ func check(c tcase) *mc.Failure {
 }
 
 // members checks that vs holds each member of mask exactly once and nothing else.
+// keysFresh checks that Keys(src) is a non-nil set of the keys of src that
+// shares no storage with src (each is changed in turn and the other must not
+// follow).
+func keysFresh[M ~map[int]U, U any](src M, val U, what string) *mc.Failure {
+	ks := mapset.Keys(src)
+	if ks == nil {
+		return mc.Failf(0, "Keys of %s (%d entries) is nil", what, len(src))
+	}
+	if len(ks) != len(src) {
+		return mc.Failf(0, "Keys of %s with %d entries has %d members", what, len(src), len(ks))
+	}
+	for k := range src {
+		if !ks.Has(k) {
+			return mc.Failf(0, "Keys of %s lacks the key %d", what, k)
+		}
+	}
+	ks.Add(77)
+	if _, leaked := src[77]; leaked {
+		return mc.Failf(0, "Keys of %s aliases its argument: adding to the result changed the argument", what)
+	}
+	if src != nil {
+		src[78] = val
+		if ks.Has(78) {
+			return mc.Failf(0, "Keys of %s aliases its argument: adding to the argument changed the result", what)
+		}
+	}
+	return nil
+}
+
 func members(vs []int, mask int, what string) *mc.Failure {
 	got := append([]int(nil), vs...)
 	sort.Ints(got)
@@ -441,6 +504,22 @@ func main() {
 				for _, ops := range mc.AllSeqs(nOperands, 3) {
 					cases = append(cases, tcase{Fn: "intersect", Ops: ops})
 				}
+				// four and five operands of every size over a universe of four
+				for _, ops := range mc.AllSeqs(16, 4) {
+					if len(ops) == 4 {
+						cases = append(cases, tcase{Fn: "intersect-masks", Ops: ops})
+					}
+				}
+				five := mc.Pick(r, []int{0, 1, 3, 6, 7, 9, 14, 15}, []int{0, 1, 2, 3, 5, 6, 7, 8, 9, 11, 12, 13, 14, 15})
+				for _, idx := range mc.AllSeqs(len(five), 5) {
+					if len(idx) == 5 {
+						ops := make([]int, 5)
+						for i, k := range idx {
+							ops[i] = five[k]
+						}
+						cases = append(cases, tcase{Fn: "intersect-masks", Ops: ops})
+					}
+				}
 				argLen := mc.Pick(r, 4, 5)
 				for a := 0; a < nOperands; a++ {
 					for _, args := range mc.AllSeqs(U+1, argLen) {
@@ -469,7 +548,7 @@ func main() {
 				r.AddEval(n, n, n, nontriv)
 				r.Bound("universe", "{0,1,2}; 3 as a value that is never a member")
 				r.Bound("operands", "nil, empty non-nil, the 7 non-empty subsets")
-				r.Rule("Intersects/IsSubset/Equals on all 9x9 operand pairs; Intersect over all operand lists of length 0..3; HasAll/HasAny over all argument lists up to the bound incl. duplicates and non-members; New/Clone/Range/Keys/Values non-nil-ness and aliasing; Slice/Append with prefixes and spare capacity 0..9; non-trivial = cases involving a nil or empty operand")
+				r.Rule("Intersects/IsSubset/Equals on all 9x9 operand pairs; Intersect over all operand lists of length 0..3, and over all 4-lists (5-lists of 8/14 of them) of the 16 subsets of a 4-element universe; HasAll/HasAny over all argument lists up to the bound incl. duplicates and non-members; New/Clone/Range/Keys/Values non-nil-ness and aliasing; Slice/Append with prefixes and spare capacity 0..9; non-trivial = cases involving a nil or empty operand")
 				r.Sample(tcase{Fn: "hasall", Ops: []int{2}, Args: []int{0, 0}})
 			},
 			Replay: func(c mc.Case) *mc.Failure {
